@@ -32,7 +32,7 @@ pub const MODULES: &[ModuleCfg] = &[
     // the imperative part: loops, mutation, the subtag iterator
     ModuleCfg {
         name: "SrcParse",
-        imports: &["UnicLocale.Gen.Src", "UnicLocale.Gen.SrcExtType", "UnicLocale.Model.Locale"],
+        imports: &["UnicLocale.Gen.Src", "UnicLocale.Gen.SrcMatch", "UnicLocale.Gen.SrcExtType", "UnicLocale.Model.Locale"],
         may_use: &["LangId", "ExtType", "UExt", "TExt", "ExtMap", "Locale"],
         prelude: false,
     },
@@ -137,6 +137,39 @@ pub const TARGETS: &[Target] = &[
     t!("Locale.fmt", "SrcParse", LOCLIB, Some("Display for Locale"), "fmt", "Locale → Bytes → Bytes", "(fun x f => f ++ UL.Locale.display x)", &[], "Fmt"),
     t!("LangId.canonicalize", "SrcParse", LIB, None, "canonicalize", "Bytes → Res Bytes", "UL.LangId.canonicalize", &[], "Fmt"),
     t!("Locale.canonicalize", "SrcParse", LOCLIB, None, "canonicalize", "Bytes → Res Bytes", "UL.Locale.canonicalize", &[], "Fmt"),
+    // ---- the mutators and getters of the extension lists and of LanguageIdentifier / Locale (`&mut self`: the new value
+    //      of `self` is the first component of the result)
+    t!("UExt.keyword", "SrcParse", UNICODE, Some("UnicodeExtensionList"), "keyword", "UExt → Bytes → Res (List Bytes)", "UL.UExt.keyword", &[], "Ops"),
+    t!("UExt.keywordKeys", "SrcParse", UNICODE, Some("UnicodeExtensionList"), "keyword_keys", "UExt → List Bytes", "UL.UExt.keywordKeys", &[], "Ops"),
+    t!("UExt.setKeyword", "SrcParse", UNICODE, Some("UnicodeExtensionList"), "set_keyword", "UExt → Bytes → List Bytes → Res UExt", "UL.UExt.setKeyword", &[], "Ops"),
+    t!("UExt.removeKeyword", "SrcParse", UNICODE, Some("UnicodeExtensionList"), "remove_keyword", "UExt → Bytes → Res (UExt × Bool)", "UL.UExt.removeKeyword", &[], "Ops"),
+    t!("UExt.clearKeywords", "SrcParse", UNICODE, Some("UnicodeExtensionList"), "clear_keywords", "UExt → UExt", "UL.UExt.clearKeywords", &[], "Ops"),
+    t!("UExt.hasAttribute", "SrcParse", UNICODE, Some("UnicodeExtensionList"), "has_attribute", "UExt → Bytes → Res Bool", "UL.UExt.hasAttribute", &[], "Ops"),
+    t!("UExt.attributes", "SrcParse", UNICODE, Some("UnicodeExtensionList"), "attributes", "UExt → List Bytes", "(fun u => u.attributes)", &[], "Ops"),
+    t!("UExt.setAttribute", "SrcParse", UNICODE, Some("UnicodeExtensionList"), "set_attribute", "UExt → Bytes → Res UExt", "UL.UExt.setAttribute", &[], "Ops"),
+    t!("UExt.removeAttribute", "SrcParse", UNICODE, Some("UnicodeExtensionList"), "remove_attribute", "UExt → Bytes → Res (UExt × Bool)", "UL.UExt.removeAttribute", &[], "Ops"),
+    t!("UExt.clearAttributes", "SrcParse", UNICODE, Some("UnicodeExtensionList"), "clear_attributes", "UExt → UExt", "UL.UExt.clearAttributes", &[], "Ops"),
+    t!("TExt.tlang", "SrcParse", TRANSFORM, Some("TransformExtensionList"), "tlang", "TExt → Option LangId", "(fun x => x.tlang)", &[], "Ops"),
+    t!("TExt.setTLang", "SrcParse", TRANSFORM, Some("TransformExtensionList"), "set_tlang", "TExt → LangId → Res TExt", "(fun x l => Res.ok (UL.TExt.setTLang x l))", &[], "Ops"),
+    t!("TExt.clearTLang", "SrcParse", TRANSFORM, Some("TransformExtensionList"), "clear_tlang", "TExt → TExt", "UL.TExt.clearTLang", &[], "Ops"),
+    t!("TExt.tfield", "SrcParse", TRANSFORM, Some("TransformExtensionList"), "tfield", "TExt → Bytes → Res (List Bytes)", "UL.TExt.tfield", &[], "Ops"),
+    t!("TExt.tfieldKeys", "SrcParse", TRANSFORM, Some("TransformExtensionList"), "tfield_keys", "TExt → List Bytes", "UL.TExt.tfieldKeys", &[], "Ops"),
+    t!("TExt.setTField", "SrcParse", TRANSFORM, Some("TransformExtensionList"), "set_tfield", "TExt → Bytes → List Bytes → Res TExt", "UL.TExt.setTField", &[], "Ops"),
+    t!("TExt.removeTField", "SrcParse", TRANSFORM, Some("TransformExtensionList"), "remove_tfield", "TExt → Bytes → Res (TExt × Bool)", "UL.TExt.removeTField", &[], "Ops"),
+    t!("TExt.clearTFields", "SrcParse", TRANSFORM, Some("TransformExtensionList"), "clear_tfields", "TExt → TExt", "UL.TExt.clearTFields", &[], "Ops"),
+    t!("PExt.hasTag", "SrcParse", PRIVATE, Some("PrivateExtensionList"), "has_tag", "List Bytes → Bytes → Res Bool", "UL.PExt.hasTag", &[], "Ops"),
+    t!("PExt.addTag", "SrcParse", PRIVATE, Some("PrivateExtensionList"), "add_tag", "List Bytes → Bytes → Res (List Bytes)", "UL.PExt.addTag", &[], "Ops"),
+    t!("PExt.removeTag", "SrcParse", PRIVATE, Some("PrivateExtensionList"), "remove_tag", "List Bytes → Bytes → Res (List Bytes × Bool)", "UL.PExt.removeTag", &[], "Ops"),
+    t!("PExt.clearTags", "SrcParse", PRIVATE, Some("PrivateExtensionList"), "clear_tags", "List Bytes → List Bytes", "(fun (p : List UL.Bytes) => ([] : List UL.Bytes))", &[], "Ops"),
+    t!("LangId.fromParts", "SrcParse", LIB, Some("LanguageIdentifier"), "from_parts", "Option Bytes → Option Bytes → Option Bytes → List Bytes → LangId", "UL.LangId.fromParts", &[], "Ops"),
+    t!("LangId.intoParts", "SrcParse", LIB, Some("LanguageIdentifier"), "into_parts", "LangId → Option Bytes × Option Bytes × Option Bytes × List Bytes", "UL.LangId.intoParts", &[], "Ops"),
+    t!("LangId.variants", "SrcParse", LIB, Some("LanguageIdentifier"), "variants", "LangId → List Bytes", "UL.LangId.variantList", &[], "Ops"),
+    t!("LangId.setVariants", "SrcParse", LIB, Some("LanguageIdentifier"), "set_variants", "LangId → List Bytes → LangId", "UL.LangId.setVariants", &[], "Ops"),
+    t!("LangId.hasVariant", "SrcParse", LIB, Some("LanguageIdentifier"), "has_variant", "LangId → Bytes → Bool", "UL.LangId.hasVariant", &[], "Ops"),
+    t!("LangId.clearVariants", "SrcParse", LIB, Some("LanguageIdentifier"), "clear_variants", "LangId → LangId", "UL.LangId.clearVariants", &[], "Ops"),
+    t!("Locale.fromParts", "SrcParse", LOCLIB, Some("Locale"), "from_parts", "Option Bytes → Option Bytes → Option Bytes → List Bytes → Option ExtMap → Locale", "UL.Locale.fromParts", &[], "Ops"),
+    t!("Locale.intoParts", "SrcParse", LOCLIB, Some("Locale"), "into_parts", "Locale → Option Bytes × Option Bytes × Option Bytes × List Bytes × Bytes", "UL.Locale.intoParts", &[], "Ops"),
+    t!("Locale.isMatch", "SrcParse", LOCLIB, Some("Locale"), "matches", "Locale → Locale → Bool → Bool → Bool", "UL.Locale.isMatch", &[], "Ops"),
     // Stretch items: registered so that the report says precisely why they are not translated
     // (tuples, `unsafe`, integer packing and table look-ups are outside the subset).
     t!("Likely.maximize", "Src", LIKELY, None, "maximize", "(stretch: look-ups as parameters)", "UL.Likely.maximize", &[], "Likely"),
